@@ -162,12 +162,15 @@ def run_generator(argv, seed):
         np.random.set_state(st_np)
 
 
-def read_outputs(outdir, numinst):
-    """Texts of 0.txt.. in order; checks the directory holds exactly those files."""
+def read_outputs(outdir, numinst, allow_extra=False):
+    """Texts of 0.txt.. in order; checks the directory holds exactly those files
+    (allow_extra: the directory was in use before the run, older files may remain)."""
     if not os.path.isdir(outdir):
         raise Violation('no_output_dir', 'accepted run did not create %s' % outdir)
     names = sorted(os.listdir(outdir))
     want = sorted('%d.txt' % i for i in range(numinst))
+    if allow_extra:
+        names = [n for n in names if n in want]
     if names != want:
         raise Violation('file_set', 'output directory holds %r, expected %r' % (names, want))
     return [open(os.path.join(outdir, '%d.txt' % i)).read() for i in range(numinst)]
